@@ -64,7 +64,7 @@ func allocStores(fn *ssa.Function, name string) []string {
 func C13(p *ir.Program, r *report.R) {
 	c := C{p, r}
 	r.Floor = 55
-	r.Explain = "Decided: (i) the ORDER of the durable writes of a commit — in LinkApplication.CommitBlock, ConsensusState.finalizeCommit, BlockExecutor.ApplyBlock, BlockStore.SaveBlock (data batch before the height descriptor before the in-memory height), wrappedTrie.Commit (undo log synced before the data batch) and SaveWAL (truncate before height); (ii) the recovery code accepts exactly the lags that order can produce (node.NewNode re-applies iff status lags the app by one; NewKeyValueDBWithCache handles kv-height in {h, h+1, 0} and panics otherwise); (iii) error discipline: no error of the storage layer is dropped or logged-and-continued on the commit path (each call site classified: propagated / fatal / dropped / swallowed); (iv) pruning: every delete in both DeleteHistoricalData loops is guarded by the wrap-free bound h+keep <= max, the early return uses the same inequality, the siblings agree, and the loaded start height is the one used. ADDED after seeded-change testing: Flat-state undo log: every batch operation of wrappedTrie.Commit is preceded in its iteration by the undo record's key and by the old value or the did-not-exist marker; the batch is committed only after saveWAL succeeded; StateDB.Commit resets the log before any trie commit; rebuildLastState reads a length field or a record body only under a bounds check (torn tail = stop). Rounds 4-5: the undo log is opened in append mode; the max-sequence key is read as written. NOT decided: atomicity of each backend's batch on disk (C19), content equality of what is read back, consequences of the writes SaveBlock performs outside its batch."
+	r.Explain = "Decided: (i) the ORDER of the durable writes of a commit — in LinkApplication.CommitBlock, ConsensusState.finalizeCommit, BlockExecutor.ApplyBlock, BlockStore.SaveBlock (data batch before the height descriptor before the in-memory height), wrappedTrie.Commit (undo log synced before the data batch) and SaveWAL (truncate before height); (ii) the recovery code accepts exactly the lags that order can produce (node.NewNode re-applies iff status lags the app by one; NewKeyValueDBWithCache handles kv-height in {h, h+1, 0} and panics otherwise); (iii) error discipline: no error of the storage layer is dropped or logged-and-continued on the commit path (each call site classified: propagated / fatal / dropped / swallowed); (iv) pruning: every delete in both DeleteHistoricalData loops is guarded by the wrap-free bound h+keep <= max, the early return uses the same inequality, the siblings agree, and the loaded start height is the one used. ADDED after seeded-change testing: Flat-state undo log: every batch operation of wrappedTrie.Commit is preceded in its iteration by the undo record's key and by the old value or the did-not-exist marker; the batch is committed only after saveWAL succeeded; StateDB.Commit resets the log before any trie commit; rebuildLastState reads a length field or a record body only under a bounds check (torn tail = stop). Rounds 4-5: the undo log is opened in append mode; the max-sequence key is read as written. Round 7: every text/number conversion of the UTXO store uses the base positionalNotation. NOT decided: atomicity of each backend's batch on disk (C19), content equality of what is read back, consequences of the writes SaveBlock performs outside its batch."
 	r.Trusted = []string{"libs/db backends (C19)", "os.File.Sync/Truncate"}
 
 	// ---- (i) order ------------------------------------------------------------
